@@ -556,22 +556,32 @@ func (d *Downstream) resume(parentConn *Conn) error {
 	d.wireConn = parentConn.wireConn
 
 	var resErr error
+	// the subscriptions are made once: an attempt repeated after ResumeRequestConflict runs on the same wire connection, where a
+	// second subscription of the alias is refused ("already subscribed")
+	var (
+		dpsCh     <-chan *message.DownstreamChunk
+		ackCompCh <-chan *message.DownstreamChunkAckComplete
+		metaCh    <-chan *message.DownstreamMetadata
+	)
 	retry.Do(func() (end bool) {
-		dpsCh, err := d.wireConn.SubscribeDownstreamChunk(d.ctx, d.idAlias, d.Config.QoS)
-		if err != nil {
-			resErr = fmt.Errorf("failed to SubscribeDownstreamChunk: %w", err)
-			return true
-		}
-		ackCompCh, err := d.wireConn.SubscribeDownstreamChunkAckComplete(d.ctx, d.idAlias)
-		if err != nil {
-			resErr = fmt.Errorf("failed to SubscribeDownstreamChunkAckComplete: %w", err)
-			return true
-		}
+		var err error
+		if dpsCh == nil {
+			dpsCh, err = d.wireConn.SubscribeDownstreamChunk(d.ctx, d.idAlias, d.Config.QoS)
+			if err != nil {
+				resErr = fmt.Errorf("failed to SubscribeDownstreamChunk: %w", err)
+				return true
+			}
+			ackCompCh, err = d.wireConn.SubscribeDownstreamChunkAckComplete(d.ctx, d.idAlias)
+			if err != nil {
+				resErr = fmt.Errorf("failed to SubscribeDownstreamChunkAckComplete: %w", err)
+				return true
+			}
 
-		metaCh, err := parentConn.subscribeDownstreamMetadata(d.ctx, d.idAlias, d.Config.Filters)
-		if err != nil {
-			resErr = fmt.Errorf("failed to subscribeDownstreamMetadata: %w", err)
-			return true
+			metaCh, err = parentConn.subscribeDownstreamMetadata(d.ctx, d.idAlias, d.Config.Filters)
+			if err != nil {
+				resErr = fmt.Errorf("failed to subscribeDownstreamMetadata: %w", err)
+				return true
+			}
 		}
 
 		resp, err := d.wireConn.SendDownstreamResumeRequest(d.ctx, &message.DownstreamResumeRequest{
